@@ -158,7 +158,8 @@ func (idx *KVIndex) AddDocTx(tx kvi.KVBulkWrite, docID string, doc map[string]in
 				}
 
 			default:
-				return fmt.Errorf("unsupported term type")
+				//a value that is neither a string nor a number has no term: the document
+				//is not listed under this field (RemoveDocTx skips such values as well)
 			}
 		}
 	}
